@@ -23,6 +23,8 @@ pub struct Node {
     pub out: RefCell<Vec<Rc<Node>>>,
     pub weaks: RefCell<Vec<Weak<Node>>>,
     pub script: RefCell<Vec<(When, Op)>>,
+    /// value clones (make_mut) do not copy the stored handles
+    pub shallow: Cell<bool>,
 }
 
 impl Node {
@@ -33,6 +35,7 @@ impl Node {
             out: RefCell::new(Vec::new()),
             weaks: RefCell::new(Vec::new()),
             script: RefCell::new(Vec::new()),
+            shallow: Cell::new(false),
         }
     }
 }
@@ -191,7 +194,9 @@ impl Clone for Node {
         let src = self.id;
         let new_id = world::with(|w| w.next_id());
         let n = Node::new(new_id);
-        {
+        let shallow = self.shallow.get();
+        n.shallow.set(shallow);
+        if !shallow {
             let outs = self.out.borrow();
             let mut v = n.out.borrow_mut();
             for h in outs.iter() {
@@ -211,8 +216,8 @@ impl Clone for Node {
         }
         world::with(|w| {
             // register the clone; its address is filled in by the executor when make_mut returns
-            let held = w.objs[src as usize].held.clone();
-            let wheld = w.objs[src as usize].wheld.clone();
+            let held = if shallow { vec![] } else { w.objs[src as usize].held.clone() };
+            let wheld = if shallow { vec![] } else { w.objs[src as usize].wheld.clone() };
             let id = w.new_obj(0, None);
             debug_assert_eq!(id, new_id);
             w.objs[id as usize].held = held;
